@@ -18,7 +18,10 @@ CASE_T = "C05.Corr.case"
 PROPS = ["C05/Props.v"]
 DRIVER = "c05_driver.py"
 CLAUSE = {1: "outcome-class", 2: "contents", 3: "failing-op-effect", 4: "several-events", 5: "missing-event",
-          6: "replay-law", 7: "index-normal-form", 8: "removed-not-selected", 9: "return-value"}
+          6: "replay-law", 7: "index-normal-form", 8: "removed-not-selected", 9: "return-value",
+          10: "copy-shares-notifiers-or-state", 11: "copy-contents"}
+COPY_T = "C05.Corr.ccase"
+COPYK = {"copy": "CopyCopy", "deep": "CopyDeep", "pickle": "CopyPickle"}
 M61 = 2305843009213693951
 
 
@@ -48,8 +51,10 @@ def op_term(op, prev=None):
         return C(k, op[1])
     if k in ("Extend", "Iadd"):
         return C(k, list(prev if op[-1] == "self" else op[1]))
-    if k == "Insert":
+    if k in ("Insert", "InsertX"):
         return C(k, op[1], op[2])
+    if k in ("PopX", "ImulX"):
+        return C(k, op[1])
     if k == "Pop":
         return C(k, opt(op[1]))
     if k == "Sort":
@@ -57,6 +62,10 @@ def op_term(op, prev=None):
     if k in ("Reverse", "Clear"):
         return C(k)
     raise ValueError(op)
+
+
+def _copy_shape(op):
+    return "Copy/" + op[1]
 
 
 def idx_term(i):
@@ -84,6 +93,8 @@ def to_term(case, obs):
 
 def op_shape(op):
     k = op[0]
+    if k == "Copy":
+        return "Copy/" + op[1]
     if k in ("SetSlice", "DelSlice"):
         c = op[1][2]
         return k + ("/step1" if c in (None, 1) else "/step0" if c == 0 else "/ext+" if c > 0 else "/ext-")
@@ -95,8 +106,14 @@ def tgt_name(case):
     return case["target"] + ("" if ch == "notifier" else "-" + ch) + ("-falsy-owner" if case.get("falsy") else "")
 
 
+XOPS = ("InsertX", "PopX", "ImulX")      # the integer argument is an object with __index__ only (finding F26)
+
+
 def key_fn(case, obs, step, clause):
-    return "%s/%s/%s" % (CLAUSE.get(clause, clause), op_shape(case["ops"][step]), tgt_name(case))
+    op = case["ops"][step]
+    if op[0] in XOPS:
+        return "%s/%s/index-object" % (CLAUSE.get(clause, clause), op[0])
+    return "%s/%s/%s" % (CLAUSE.get(clause, clause), op_shape(op), tgt_name(case))
 
 
 def describe(case, obs, step, clause):
@@ -121,8 +138,8 @@ def _v(vk, a):
         return a
     if vk == "VCInt" and 100 <= a < 200:
         return a - 100
-    if vk == "VCInt" and 300 <= a < 400:
-        return a - 300
+    if vk == "VCInt" and 300 <= a % 1000 < 400 and (a < 400 or a >= 1000):
+        return a % 1000 - 300
     return None
 
 
@@ -213,7 +230,8 @@ def gen_items(rnd, vk, n, cur):
     if n and cur and 0.45 <= r < 0.6:
         items[rnd.randrange(n)] = rnd.choice(cur)         # an item already present
     if n and 0.6 <= r < 0.68:
-        items[rnd.randrange(n)] = 300 + rnd.randint(0, 9)  # the float d.0: equal to the int d, another value
+        # the float d.0: equal to the int d, another value; sometimes as the j-th distinct float object d.0
+        items[rnd.randrange(n)] = 300 + rnd.randint(0, 9) + 1000 * rnd.choice([0, 0, 1, 2, 3])
     return items
 
 
@@ -239,6 +257,11 @@ def arg_kind(rnd):
 def gen_op(rnd, vk, cur, allow_self=False):
     n = len(cur)
     k = rnd.choice(KINDS)
+    if k in ("Insert", "Pop", "Imul") and rnd.random() < 0.08:
+        # the integer argument as an object with __index__ only: the code raises TypeError (finding F26)
+        i = rnd.randint(-n - 1, n + 1)
+        return ["InsertX", i, gen_items(rnd, vk, 1, cur)[0]] if k == "Insert" else ["PopX", i] if k == "Pop" \
+            else ["ImulX", rnd.choice([-1, 0, 1, 2])]
     if allow_self and k in ("SetSlice", "Extend", "Iadd") and rnd.random() < 0.12:
         # aliased argument: the receiver itself (the model takes the snapshot before the mutation)
         return [k, gen_slice(rnd, n), None, "self"] if k == "SetSlice" else [k, None, "self"]
@@ -309,7 +332,10 @@ def gen_case(rnd, ctx, maxops, maxinit, target=None, bounds=None):
         # equal but distinct items in mirrored positions (the int d and the float d.0): reversing such a list
         # changes it although the result compares == to the original
         half = [rnd.randint(0, 9) for _ in range(rnd.randint(1, 3))]
-        init = half + [rnd.randint(0, 9)] * rnd.randint(0, 1) + [300 + x for x in reversed(half)]
+        if rnd.random() < 0.5:
+            init = half + [rnd.randint(0, 9)] * rnd.randint(0, 1) + [300 + x for x in reversed(half)]
+        else:       # distinct objects of the same type and value: only their identity tells them apart
+            init = [1300 + x for x in half] + [2300 + x for x in reversed(half)]
     cur = list(init)
     ops = []
     for _ in range(rnd.randint(1, maxops)):
@@ -336,12 +362,17 @@ def corpus():
             ["SetSlice", [3, 1, None], [6]], ["SetSlice", [1, None, 10], [5]], ["DelSlice", [5, 0, -3]],
             ["SetSlice", [0, 0, None], []], ["Sort", False], ["Sort", False], ["Sort", True, 3], ["Sort", False, 2], ["Reverse"],
             ["SetInt", -1, 104], ["SetInt", 7, 200], ["SetInt", 7, 1], ["Pop", -9], ["Pop", None],
-            ["Insert", -100, 3], ["Insert", 100, 103], ["Imul", 2], ["Imul", 0], ["Imul", 3], ["Clear"], ["Clear"],
+            ["Insert", -100, 3], ["Insert", 100, 103], ["InsertX", 0, 3], ["PopX", 0], ["ImulX", 2], ["ImulX", 0], ["PopX", 99], ["Imul", 2], ["Imul", 0], ["Imul", 3], ["Clear"], ["Clear"],
             ["Remove", 3], ["Append", 3], ["Remove", 103], ["Remove", 3],
             ["Extend", [1, 2]], ["Extend", None, "self"], ["Iadd", None, "self"], ["SetSlice", [1, 2, None], None, "self"],
             ["SetSlice", [None, None, -1], None, "self"], ["ImulQ", 1, 2, "float"], ["ImulQ", -1, 1, "float"],
             ["ImulQ", 1, 2, "fraction"], ["ImulQ", 1, 4, "decimal"], ["ImulQ", 5, 2, "float"], ["Imul", 1, "bool"],
             ["Imul", 2, "numpy"], ["Imul", 0, "bool"]]))
+        cs.append(dict(vk="VAll", target=tgt, channel=ch, init=[1301, 1302, 2302, 2301], ops=[
+            ["Reverse"], ["Sort", False, 0], ["Sort", True, 0], ["SetSlice", [None, None, -1], [3301, 2301]], ["Remove", 1],
+            ["Remove", 301], ["Append", 1301], ["Reverse"], ["SetInt", 0, 1201], ["Append", 2201], ["Reverse"], ["Pop", 0]]))
+        cs.append(dict(vk="VCInt", target=tgt, channel=ch, init=[1, 2], ops=[
+            ["Append", 1303], ["Extend", [2303, 3304]], ["SetInt", 0, 1201], ["Remove", 1303]]))
         cs.append(dict(vk="VAll", target=tgt, channel=ch, init=[1, 2, 302, 301], ops=[
             ["Reverse"], ["Reverse"], ["Sort", False, 0], ["Reverse"], ["SetInt", 0, 7, "idx"], ["SetInt", -1, 8, "numpy"],
             ["DelInt", 1, "idx"], ["DelInt", -1, "numpy"], ["SetInt", 9, 1, "idx"], ["DelInt", -9, "idx"],
@@ -382,7 +413,8 @@ def grid_ops(b):
     ops = []
     for i in range(-b, b + 1):
         ops += [["DelInt", i], ["SetInt", i, 99], ["SetInt", i, 199], ["SetInt", i, 200], ["Insert", i, 99],
-                ["Insert", i, 200], ["Pop", i], ["Imul", i], ["Remove", 10 + i]]
+                ["Insert", i, 200], ["Pop", i], ["Imul", i], ["Remove", 10 + i], ["InsertX", i, 99], ["PopX", i],
+                ["ImulX", i]]
     ops += [["Pop", None], ["Append", 5], ["Append", 105], ["Append", 200], ["Extend", [5, 6]], ["Extend", []],
             ["Extend", [5, 200]], ["Iadd", [5, 106]], ["Iadd", []], ["ImulQ", 1, 2, "float"], ["ImulQ", 5, 2, "float"],
             ["ImulQ", 2, 1, "float"], ["ImulQ", -1, 2, "float"], ["Clear"], ["Reverse"], ["Sort", False, 0],
@@ -620,6 +652,35 @@ def t1_obligation(ctx):
     return acts
 
 
+# ---------------------------------------------------------------- copies
+def copy_term(case, obs):
+    first = obs[0]
+    ob = C("Ok", list(first["after"])) if first["out"] == "Ok" else C("Raise", C(first["out"]))
+    h, prev = [], list(first["after"])
+    for op, o in zip(case["ops"][1:], obs[1:]):
+        h.append((op_term(op, prev), obs_term(o)))
+        prev = list(o["after"])
+    return (target_term(case), C(case["vk"]), C(COPYK[case["ops"][0][1]]), list(case["init"]), ob, bool(first.get("fresh")), h)
+
+
+def gen_copy_case(rnd, ctx, maxops):
+    """a TraitList (any validator) copied by copy / deepcopy / pickle, or a List-trait TraitListObject copied by deepcopy /
+    pickle; the history continues on the copy"""
+    target = rnd.choice(["plain", "plain", "obj"])
+    base = gen_case(rnd, ctx, maxops, 6, target=target,
+                    bounds=rnd.choice([(0, None), (0, 3), (1, 4), (2, None)]) if target == "obj" else None)
+    base.pop("channel", None)
+    base.pop("falsy", None)
+    kind = rnd.choice(["copy", "deep", "pickle"]) if target == "plain" else rnd.choice(["deep", "pickle"])
+    # an ownerless trait list cannot itself be deep-copied again (no trait): no "loose" arguments after the copy
+    base["ops"] = [["Copy", kind]] + [o[:-1] if o[-1] == "loose" else o for o in base["ops"]]
+    ctx.count("copy:%s/%s" % (target, kind))
+    return base
+
+
+COPY_HEADER = HEADER + "\nDefinition corr_codes := corr_copy.\nDefinition law_codes := law_copy."
+
+
 # ---------------------------------------------------------------- run
 def hist_args():
     return dict(to_term=to_term, header=HEADER, case_type=CASE_T, key_fn=key_fn, describe=describe,
@@ -692,6 +753,16 @@ def run(ctx):
         hist.run(ctx, DRIVER, cases, relation="C05.Corr.corr_codes (Model.tl_step / tlo_step = TraitList on every step)",
                  **hist_args())
     if not ctx.replay:
+        ccases = [dict(vk=vk, target="plain", init=[1, 2, 3], ops=[["Copy", k], ["Append", 105], ["Append", 200],
+                                                                    ["SetSlice", [None, None, -1], [7, 8, 9]], ["Clear"]])
+                  for vk in ("VInt", "VCInt", "VInc", "VAll") for k in ("copy", "deep", "pickle")]
+        ccases += [dict(vk="VInt", target="obj", minlen=1, maxlen=4, init=[1, 2, 3],
+                        ops=[["Copy", k], ["Append", 200], ["Append", 5], ["Append", 6], ["Clear"], ["Pop", None]])
+                   for k in ("deep", "pickle")]
+        ccases += [gen_copy_case(rnd, ctx, 8) for _ in range(120 if ctx.tier == "quick" else 3000)]
+        hist.run(ctx, DRIVER, ccases, copy_term, COPY_HEADER, COPY_T, key_fn, describe, nontrivial,
+                 relation="C05.Corr.corr_copy (copy / deepcopy / pickle, then the history on the copy)", tag="copies",
+                 do_shrink=False)
         if ctx.tier == "quick":
             # a slice of the grid: index bound 3, lengths 0..4, one validator per length drawn from the seed
             cfgs = [dict(target=rnd.choice(["plain", "obj"]), vk=rnd.choice(["VAll", "VInt", "VCInt"]), n=n)
